@@ -17,7 +17,7 @@ PROP_OF = [  # (regex on commit subject, property)
     (r"number of objectives from the first non-failed|non-finite value to a failure", "C04/C06"),
     (r"impute failures per objective", "C06"),
     (r"Pareto rewrite of results\.csv keeps the CSV dialect", "C04"),
-    (r"MES acquisition no longer floors", "C05"),
+    (r"MES acquisition no longer floors|Real\.rvs clips the samples of the updated prior", "C05"),
     (r"CBO\.ask called again before any tell", "C08"),
     (r"results\.csv|earlier results|results written by another search|always starts its results file", "C15"),
     (r"Identity\(type_func\)|Real\.inverse_transform", "C09/C02"), (r"sample from their prior|keeps the weights", "C10"),
